@@ -1057,6 +1057,59 @@ class _Matmul:
         return a[0] @ (a[1].T if s["tb"] else a[1])
 
 
+@op("outer", "linalg")
+class _Outer:
+    """np.outer / einsum('i,j->ij') / subtract.outer of 1-d operands: one operand may feed the SAME
+    blockwise twice under different output indices (fusion must keep both block mappings apart)."""
+
+    @staticmethod
+    def gen(D_, vals):
+        i = _pick(D_, vals, lambda v: v.ndim == 1 and _numeric(v) and v.size <= 12)
+        if i is None:
+            return None
+        cands = [j for j, w in enumerate(vals) if w.ndim == 1 and _numeric(w) and w.size <= 12]
+        j = i if D_.chance(1, 2) else D_.choice(cands)
+        return {"op": "outer", "args": [i, j], "via": D_.choice(["outer", "einsum", "subtract.outer"])}
+
+    @staticmethod
+    def np(s, a):
+        if s["via"] == "subtract.outer":
+            return np.subtract.outer(a[0], a[1])
+        return np.outer(a[0], a[1])
+
+    @staticmethod
+    def da(s, a):
+        import dask_array as da
+
+        if s["via"] == "einsum":
+            return da.einsum("i,j->ij", a[0], a[1])
+        if s["via"] == "subtract.outer":
+            return da.subtract.outer(a[0], a[1])
+        return da.outer(a[0], a[1])
+
+
+@op("einsum_perm", "linalg")
+class _EinsumPerm:
+    """An operand used twice with permuted index labels in one blockwise: einsum('ij,ji->ij', m, m) etc."""
+
+    @staticmethod
+    def gen(D_, vals):
+        i = _pick(D_, vals, lambda v: v.ndim == 2 and v.shape[0] == v.shape[1] and _numeric(v) and v.dtype.kind in "if" and v.size > 0)
+        if i is None:
+            return None
+        return {"op": "einsum_perm", "args": [i], "spec": D_.choice(["ij,ji->ij", "ij,ji->", "ij,ji->i"])}
+
+    @staticmethod
+    def np(s, a):
+        return np.einsum(s["spec"], a[0], a[0])
+
+    @staticmethod
+    def da(s, a):
+        import dask_array as da
+
+        return da.einsum(s["spec"], a[0], a[0])
+
+
 @op("tensordot", "linalg")
 class _Tensordot:
     @staticmethod
